@@ -73,7 +73,7 @@ def check_case(case, tier):
             where = next((f"{fr.filename.split('/')[-1]}:{fr.name}" for fr in reversed(tb) if "/naunet/" in fr.filename), "?")
             failures.append((f"render-raises/{type(e).__name__}@{where}", f"{type(e).__name__}: {e}"))
             projs = {}
-        present = sorted({i for rc in case["reactions"] for i in rc["r"] + rc["p"]})
+        present = sorted({i for rc in case["reactions"] for i in rc["r"] + rc["p"]} | set(case.get("required", [])))
         for method, proj in projs.items():
             try:
                 slots = N.slot_of(case, proj)
